@@ -132,17 +132,21 @@ def check(tier="quick", seed=0, workers=None, only=None):
     sp = common.filt(specs(tier), only)
     st = engine.explore_many(sp, workers=workers, bound=1, seed=seed, max_violations=60)
     cst, cinfo = conc.run_for("C16", tier, seed, workers, only)
+    from . import backends
+    bst, binfo = backends.run_for(tier, seed, workers, only)
     total = engine.Stats(bound=1)
     total.merge_from(st)
     total.merge_from(cst)
+    total.merge_from(bst)
     total.samples = st.samples[:3] + cst.samples[:3]
     viols = common.collect(total, ("C16",))
     cov = evidence.stats_coverage(
         total,
         rule=("(a) every connection type x 10 timeout configurations x variant, request with body answered with an interim 1xx + final response, then a second request; "
               "one read cut anywhere (deviation bound 1) so that every read call site issues its own network read; every connect/start_tls/read/write in the ledger judged; "
-              "(b) pool-timeout scenarios on the virtual loop, all orders of deadline vs release; non-trivial = outcome class of an execution with a cut / a timer event"),
-        extra={"sequential_scenarios": len(sp), "pool_timeout": cinfo})
+              "(c) the real SyncBackend / AnyIOBackend / TrioBackend over OS-level fakes: the limit in effect at every OS-level operation (settimeout value / innermost fail_after scope) "
+              "must be the request's connect / read / write value; (b) pool-timeout scenarios on the virtual loop, all orders of deadline vs release; non-trivial = outcome class of an execution with a cut / a timer event"),
+        extra={"sequential_scenarios": len(sp), "pool_timeout": cinfo, "real_backends": binfo})
     return {"level": "model_checking", "coverage": cov, "violations": viols,
             "assumptions": ["proxy negotiation operations may carry any of the configured connect/read/write values; None is accepted there only when one of the three is absent",
                             "PoolTimeout must be raised at (virtual) enqueue time + T; a re-queued request restarts its clock (the only reading under which the retry loop is judged)"]}
